@@ -426,6 +426,11 @@ func (zp *ZoneParser) Next() (RR, bool) {
 				return zp.setParseError("garbage after $INCLUDE", l)
 			}
 
+			if zp.c.Err() != nil {
+				// The input failed inside this directive.
+				return nil, false
+			}
+
 			if !zp.includeAllowed {
 				return zp.setParseError("$INCLUDE directive not allowed", l)
 			}
